@@ -12,6 +12,8 @@ import (
 	"path/filepath"
 	"strings"
 	"sync"
+	"syscall"
+	"time"
 
 	"github.com/thought-machine/please/src/cache"
 	"github.com/thought-machine/please/src/core"
@@ -44,6 +46,7 @@ type scServer struct {
 	abortPut  int // abort the connection after reading this many bytes of a PUT body (0 = never)
 	truncGet  int // send only this many bytes of a GET body, then drop the connection (0 = never)
 	silentGet bool // ... but as a complete, shorter response (clean end)
+	slowPut   time.Duration // wait this long before reading a PUT body
 	putClean  int
 	putBroken int
 }
@@ -54,6 +57,9 @@ func (s *scServer) ServeHTTP(w http.ResponseWriter, r *http.Request) {
 	case http.MethodPut:
 		var body []byte
 		var err error
+		if s.slowPut > 0 {
+			time.Sleep(s.slowPut)
+		}
 		if s.abortPut > 0 {
 			body, err = io.ReadAll(io.LimitReader(r.Body, int64(s.abortPut)))
 			if err == nil {
@@ -147,6 +153,7 @@ func streamCacheEngine(args []string) error {
 			p := filepath.Join(outDir, name)
 			os.MkdirAll(filepath.Dir(p), 0775)
 			content := strings.Repeat(fmt.Sprintf("file-%d-", i), 300*i)
+
 			os.WriteFile(p, []byte(content), 0644)
 			want = append(want, fmt.Sprintf("%s %d", name, len(content)))
 			sizes = append(sizes, len(content))
@@ -178,6 +185,21 @@ func streamCacheEngine(args []string) error {
 		if c.ReadFaultAt > 0 {
 			if c.FaultStyle == "missing" {
 				os.Remove(filepath.Join(outDir, scFileName(c.Shape, c.ReadFaultAt)))
+			} else if c.FaultStyle == "vanish" {
+				// the file disappears AFTER its directory was listed: a FIFO that sorts just before it is the rendezvous --
+				// the archiver blocks opening it, the file is removed, the FIFO's writer closes, the archiver goes on
+				victim := filepath.Join(outDir, scFileName(c.Shape, c.ReadFaultAt))
+				fifo := filepath.Join(filepath.Dir(victim), fmt.Sprintf("f%dz", c.ReadFaultAt-1))
+				if err := syscall.Mkfifo(fifo, 0644); err != nil {
+					return err
+				}
+				go func() {
+					w, err := os.OpenFile(fifo, os.O_WRONLY, 0) // returns once the archiver has opened the FIFO for reading
+					if err == nil {
+						os.Remove(victim)
+						w.Close()
+					}
+				}()
 			} else {
 				// the n-th call of the tar producer's per-entry step; in shape "dir" the directory itself is one call
 				n := c.ReadFaultAt
